@@ -36,6 +36,7 @@ static PEAK: AtomicUsize = AtomicUsize::new(0);
 static LARGEST: AtomicUsize = AtomicUsize::new(0);
 static NALLOC: AtomicU64 = AtomicU64::new(0);
 const CHILD_STACK: usize = 2 << 20;
+const MAX_HANGS: u32 = 3;
 const MAX_SINGLE: usize = 2 << 30;
 const MAX_LIVE: usize = 3 << 30;
 
@@ -815,6 +816,99 @@ fn p_compaction_backup(b: &[u8], env: &Env) -> Result<Val, String> {
     std::fs::write(dir.join("extract_bu"), b).map_err(es)?;
     ExtractorCompactorBackup::load(&dir).map(|_| unit()).map_err(es)
 }
+// ---- "parse, then operate": a parser whose result is a live object must hand out a value the cheap public
+// operations can work on; whatever the parser accepted is put through them
+fn p_shmem_ops(b: &[u8], _: &Env) -> Result<Val, String> {
+    use cascette_client_storage::shmem::control_block::{PidTracking, ShmemControlBlock};
+    let exercise = |p: &mut PidTracking, region: usize| {
+        let mut buf = vec![0u8; region];
+        p.to_mapped(&mut buf);
+        p.recount();
+        let _ = p.add_process(4242, 1);
+        let _ = p.add_process(4243, 2);
+        let _ = p.remove_process(4242);
+        let _ = p.remove_process(1234);
+        p.recount();
+        p.to_mapped(&mut buf);
+    };
+    // the tracking region on its own (the bytes are the region)
+    let mut p = PidTracking::from_mapped(b);
+    exercise(&mut p, b.len());
+    // the whole control block: write back into a buffer of its own file size and into one of the input's size
+    let Some(mut cb) = ShmemControlBlock::from_mapped(b) else { return Err("not a control block".into()) };
+    let _ = cb.validate_for_bind();
+    {
+        // (to_mapped documents that the caller provides file_size() bytes)
+        let mut buf = vec![0u8; cb.file_size()];
+        cb.to_mapped(&mut buf);
+        let _ = ShmemControlBlock::from_mapped(&buf);
+    }
+    let region = b.len().saturating_sub(0x154);
+    if let Some(p) = cb.pid_tracking_mut() {
+        exercise(p, region);
+    }
+    cb.set_exclusive(true);
+    let mut buf = vec![0u8; cb.file_size()];
+    cb.to_mapped(&mut buf);
+    Ok(unit())
+}
+fn p_residency_ops(b: &[u8], env: &Env) -> Result<Val, String> {
+    use cascette_client_storage::kmt::key_state::ResidencyDb;
+    let dir = env.tmp.join("res_ops");
+    std::fs::create_dir_all(&dir).map_err(es)?;
+    let path = dir.join("residency.db");
+    std::fs::write(&path, b).map_err(es)?;
+    let mut db = ResidencyDb::load(&path).map_err(es)?;
+    let keys = db.scan_keys();
+    for k in keys.iter().take(8) {
+        let _ = db.is_resident(k);
+        db.mark_span_non_resident(k, 16, 32);
+        db.mark_non_resident(k);
+        db.mark_resident(k);
+    }
+    db.mark_resident(&k16(0xEA, 900));
+    db.delete_keys(&keys.iter().take(2).copied().collect::<Vec<_>>());
+    let _ = db.entry_count();
+    db.save().map_err(es)?;
+    let again = ResidencyDb::load(&path).map_err(es)?;
+    let _ = again.scan_keys();
+    Ok(unit())
+}
+fn p_local_idx_ops(b: &[u8], env: &Env) -> Result<Val, String> {
+    use cascette_client_storage::index::{IndexManager, UpdateStatus};
+    use cascette_crypto::EncodingKey;
+    let dir = env.tmp.join("idx_ops");
+    let _ = std::fs::remove_dir_all(&dir);
+    std::fs::create_dir_all(&dir).map_err(es)?;
+    let path = dir.join("0100000001.idx");
+    std::fs::write(&path, b).map_err(es)?;
+    let mut m = IndexManager::new(&dir);
+    m.load_index(1, &path).map_err(es)?;
+    let entries: Vec<_> = m.iter_entries().take(6).collect();
+    for (_, e) in &entries {
+        let mut k = [0u8; 16];
+        k[..9].copy_from_slice(&e.key);
+        let k = EncodingKey::from_bytes(k);
+        let _ = m.lookup(&k);
+        let _ = m.has_entry(&k);
+        let _ = m.update_entry_status(&k, UpdateStatus::Normal);
+    }
+    let fresh = EncodingKey::from_bytes(k16(0xE8, 7777));
+    let _ = m.add_entry(&fresh, 2, 4096, 77);
+    let _ = m.lookup(&fresh);
+    if let Some((_, e)) = entries.first() {
+        let mut k = [0u8; 16];
+        k[..9].copy_from_slice(&e.key);
+        let _ = m.remove_entry(&EncodingKey::from_bytes(k));
+    }
+    let _ = m.flush_all_updates();
+    let _ = m.stats();
+    let _ = m.entry_count();
+    m.save_all().map_err(es)?;
+    let mut again = IndexManager::new(&dir);
+    env.rt.block_on(again.load_all()).map_err(es)?;
+    Ok(unit())
+}
 fn p_build_info(b: &[u8], _: &Env) -> Result<Val, String> {
     use cascette_client_storage::build_info::BuildInfoFile;
     let s = std::str::from_utf8(b).map_err(|e| e.to_string())?;
@@ -864,6 +958,9 @@ static FORMATS: &[Fmt] = &[
     Fmt { name: "lru", decomp: false, text: false, parse: p_lru, rt: None, weight: 3 },
     Fmt { name: "lru_ops", decomp: false, text: false, parse: p_lru_ops, rt: None, weight: 3 },
     Fmt { name: "shmem", decomp: false, text: false, parse: p_shmem, rt: None, weight: 2 },
+    Fmt { name: "shmem_ops", decomp: false, text: false, parse: p_shmem_ops, rt: None, weight: 3 },
+    Fmt { name: "residency_ops", decomp: false, text: false, parse: p_residency_ops, rt: None, weight: 2 },
+    Fmt { name: "local_idx_ops", decomp: false, text: false, parse: p_local_idx_ops, rt: None, weight: 3 },
     Fmt { name: "build_info", decomp: false, text: true, parse: p_build_info, rt: None, weight: 2 },
     Fmt { name: "dirnames", decomp: false, text: true, parse: p_dirnames, rt: None, weight: 4 },
     Fmt { name: "compaction_backup", decomp: false, text: false, parse: p_compaction_backup, rt: None, weight: 1 },
@@ -1536,17 +1633,17 @@ fn all_seeds(tmp: &Path) -> Vec<Vec<Seed>> {
                 v.push(text_seed("mime_checksum", &format!("{MIME_SEED}Checksum: 0000000000000000000000000000000000000000000000000000000000000000\r\n")));
                 v.push(text_seed("bpsv_versions", BPSV_SEED));
             }
-            "local_idx" => {
+            "local_idx" | "local_idx_ops" => {
                 v.extend(bseed("idx_updates", guarded(|| build_local_idx_seed(tmp, false)).unwrap_or_else(Err)));
                 v.extend(bseed("idx_flushed", guarded(|| build_local_idx_seed(tmp, true)).unwrap_or_else(Err)));
             }
             "update_section" => v.extend(bseed("update30", guarded(build_update_section_seed).unwrap_or_else(Err))),
-            "residency" => v.extend(bseed("residency40", guarded(|| build_residency_seed(tmp)).unwrap_or_else(Err))),
+            "residency" | "residency_ops" => v.extend(bseed("residency40", guarded(|| build_residency_seed(tmp)).unwrap_or_else(Err))),
             "lru" | "lru_ops" => {
                 v.push(Seed { name: "builder/lru5".into(), bytes: build_lru_seed(5), real: false });
                 v.push(Seed { name: "builder/lru0".into(), bytes: build_lru_seed(0), real: false });
             }
-            "shmem" => {
+            "shmem" | "shmem_ops" => {
                 v.push(Seed { name: "builder/shmem_v5".into(), bytes: build_shmem_seed(true), real: false });
                 v.push(Seed { name: "builder/shmem_v4".into(), bytes: build_shmem_seed(false), real: false });
             }
@@ -1786,7 +1883,7 @@ fn layout(fmt: &str) -> Vec<Fld> {
         "patch_index_block2" => vec![fl("entry_count", 0, 4), fl("key_size", 4, 1)],
         "patch_index_block8" => vec![fl("version", 0, 1), fl("key_size", 1, 1), fl("data_offset", 2, 2), fl("entry_count", 4, 4), fl("unknown", 8, 4)],
         "zbsdiff" | "zbsdiff_apply" => vec![fl("signature", 0, 8), fl("control_size", 8, 8), fl("diff_size", 16, 8), fl("output_size", 24, 8)],
-        "local_idx" => vec![
+        "local_idx" | "local_idx_ops" => vec![
             fl("hdr_block_size", 0, 4),
             fl("version", 8, 2),
             fl("bucket", 10, 1),
@@ -1798,8 +1895,8 @@ fn layout(fmt: &str) -> Vec<Fld> {
             fl("entry_block_size", 32, 4),
         ],
         "lru" | "lru_ops" => vec![fl("version", 0, 2), fl("mru_head", 20, 4), fl("lru_tail", 24, 4), fl("e0_prev", 28, 4), fl("e0_next", 32, 4), fl("e1_prev", 48, 4), fl("e1_next", 52, 4), fl("e4_prev", 108, 4), fl("e4_next", 112, 4)],
-        "shmem" => vec![fl("version", 0, 1), fl("init", 2, 1), fl("fst_format", 0x108, 4), fl("data_size", 0x10C, 4), fl("exclusive", 0x150, 4), fl("pid_state", 0x154, 4), fl("max_slots", 0x154 + 24, 4), fl("direct_max_slots", 24, 4)],
-        "residency" => vec![fl("bucket_id", 0, 1), Fld { name: "page_count", loc: Loc::Dyn(residency_pc), w: 4, be: false }],
+        "shmem" | "shmem_ops" => vec![fl("version", 0, 1), fl("init", 2, 1), fl("fst_format", 0x108, 4), fl("data_size", 0x10C, 4), fl("exclusive", 0x150, 4), fl("pid_state", 0x154, 4), fl("max_slots", 0x154 + 24, 4), fl("direct_max_slots", 24, 4)],
+        "residency" | "residency_ops" => vec![fl("bucket_id", 0, 1), Fld { name: "page_count", loc: Loc::Dyn(residency_pc), w: 4, be: false }],
         _ => Vec::new(),
     }
 }
@@ -2856,6 +2953,8 @@ fn family_members(fam: &str) -> Vec<&'static str> {
         "zbsdiff_ctl" => vec!["zbsdiff_apply"],
         "blte_echunk" => vec!["blte_decrypt_chunk", "blte_decompress"],
         "lru" => vec!["lru", "lru_ops"],
+        "shmem" => vec!["shmem", "shmem_ops"],
+        "local_idx" => vec!["local_idx", "local_idx_ops"],
         other => FORMATS.iter().filter(|f| f.name == other).map(|f| f.name).collect(),
     }
 }
@@ -3116,7 +3215,13 @@ struct Exec {
 }
 fn exec(kid: &mut Option<Kid>, tmp: &Path, job: &Job, t: Duration) -> Exec {
     if kid.is_none() {
-        *kid = Some(spawn_kid(tmp));
+        let k = spawn_kid(tmp);
+        // wait for the child's initialisation (not part of any input's time budget)
+        match k.recv(Duration::from_secs(120)) {
+            Got::Line(v) if v["k"].as_str() == Some("ready") => {}
+            _ => eprintln!("driver: child did not report ready"),
+        }
+        *kid = Some(k);
     }
     let mut ex = Exec { p: None, r: None, b: None, death: None };
     let k = kid.as_mut().expect("kid");
@@ -3164,6 +3269,8 @@ fn exec(kid: &mut Option<Kid>, tmp: &Path, job: &Job, t: Duration) -> Exec {
 
 #[derive(Default)]
 struct Stats {
+    skipped: u64,
+    hangs: u64,
     jobs: u64,
     events: u64,
     by_src: std::collections::BTreeMap<String, u64>,
@@ -3306,10 +3413,14 @@ fn run_jobs(plan: &Plan, tmp: &Path, out_path: &str, workers: usize, timeout: Du
     let total = plan.total();
     let plan = std::sync::Arc::new(plan);
     let mut stats = Stats::default();
+    // confirmed hangs per entry point: after MAX_HANGS the entry point is not fed any more (every further input would
+    // cost the full watchdog time twice); its remaining inputs are logged as skipped
+    let hangs: std::sync::Arc<Vec<std::sync::atomic::AtomicU32>> = std::sync::Arc::new((0..FORMATS.len()).map(|_| std::sync::atomic::AtomicU32::new(0)).collect());
     let results: Vec<Stats> = std::thread::scope(|sc| {
         let mut hs = Vec::new();
         for w in 0..workers {
             let plan = plan.clone();
+            let hangs = hangs.clone();
             let wtmp = tmp.join(format!("w{w}"));
             let part = format!("{out_path}.part{w}");
             hs.push(sc.spawn(move || {
@@ -3324,6 +3435,19 @@ fn run_jobs(plan: &Plan, tmp: &Path, out_path: &str, workers: usize, timeout: Du
                         continue;
                     }
                     let job = plan.job(i);
+                    if hangs[job.fi].load(Relaxed) >= MAX_HANGS {
+                        let e = json!({"op": "skip", "id": job.idx, "src": job.src, "fmt": FORMATS[job.fi].name, "why": "entry point stopped after confirmed hangs"});
+                        serde_json::to_writer(&mut f, &e).expect("write event");
+                        f.write_all(b"\n").expect("write event");
+                        st.events += 1;
+                        st.skipped += 1;
+                        st.jobs += 1;
+                        *st.by_src.entry(job.src.to_string()).or_default() += 1;
+                        i += workers as u64;
+                        continue;
+                    }
+                    // generated decompression bombs legitimately take seconds
+                    let timeout = if job.seed.starts_with("generated/") { timeout * 20 } else { timeout };
                     let mut ex = exec(&mut kid, &wtmp, &job, timeout);
                     let mut rerun = false;
                     let mut first = None;
@@ -3336,6 +3460,10 @@ fn run_jobs(plan: &Plan, tmp: &Path, out_path: &str, workers: usize, timeout: Du
                         ex = exec(&mut kid, &wtmp, &job, timeout * 3);
                         if ex.death.is_none() {
                             st.flaky += 1;
+                        }
+                        if ex.death.as_ref().is_some_and(|(d, _)| d["kind"].as_str() == Some("hang")) {
+                            hangs[job.fi].fetch_add(1, Relaxed);
+                            st.hangs += 1;
                         }
                     }
                     for e in events_of(&job, &ex, rerun, first.as_ref(), &mut st) {
@@ -3368,6 +3496,8 @@ fn run_jobs(plan: &Plan, tmp: &Path, out_path: &str, workers: usize, timeout: Du
         stats.rt += s.rt;
         stats.reruns += s.reruns;
         stats.flaky += s.flaky;
+        stats.skipped += s.skipped;
+        stats.hangs += s.hangs;
         for (k, v) in s.by_src {
             *stats.by_src.entry(k).or_default() += v;
         }
@@ -3471,7 +3601,7 @@ fn parent_main(args: &[String]) {
     let by_fmt: Map<String, Value> = st.by_fmt.iter().map(|(k, v)| (k.clone(), json!(v))).collect();
     eprintln!(
         "{}",
-        json!({"programs": st.jobs, "events": st.events, "by_src": st.by_src, "outcomes": st.outcomes, "by_fmt": by_fmt, "rt": st.rt, "reruns": st.reruns, "flaky": st.flaky,
+        json!({"programs": st.jobs, "events": st.events, "by_src": st.by_src, "outcomes": st.outcomes, "by_fmt": by_fmt, "rt": st.rt, "reruns": st.reruns, "flaky": st.flaky, "hangs": st.hangs, "skipped": st.skipped,
                "distinct_inputs": st.distinct.len(), "fixtures": plan.fixtures.len(), "model_jobs": plan.model.len(), "bprogs": plan.bprogs.len(), "mutations": plan.nmut,
                "wall_ms": t0.elapsed().as_millis() as u64})
     );
@@ -3491,6 +3621,9 @@ fn child_main(args: &[String]) {
     let mut rd = stdin.lock();
     let stdout = std::io::stdout();
     let mut out = stdout.lock();
+    // initialisation (seed files, runtime) is over: the per-input watchdog of the parent starts with the first frame
+    writeln!(out, "{}", json!({"k": "ready"})).expect("child stdout");
+    out.flush().expect("child stdout");
     loop {
         let mut h = [0u8; 7];
         if rd.read_exact(&mut h).is_err() {
